@@ -236,7 +236,67 @@ def fix_batchers(spec):
 
 # ------------------------------------------------------------------------- groups (nested / chained)
 
+def gen_group_drain(rng):
+    """A group path whose input is blocked for a long while (or for good) while parts are still inside the group and
+    the device after the path is slower than the group: the parts inside must still drain through the path."""
+    spec = {'devs': [], 'groups': [], 'res': {}, 'actions': []}
+    devs = spec['devs']
+    devs.append(source(rng, 'S0', batch_p=0.1))
+    if devs[0]['c'] == 0:
+        devs[0]['c'] = rng.choice([0.5, 1])
+    devs[0]['budget'] = rng.choice([INF, INF, 7, 12])
+    up = ['S0']
+    if rng.random() < 0.3:
+        devs.append(handler(rng, 'H0', up))
+        up = ['H0']
+    gd = []
+    for j in range(rng.choice([1, 1, 2])):
+        k = rng.choice(['P', 'P', 'H', 'B'])
+        u = [gd[-1]['n']] if gd else []
+        if k == 'P':
+            gd.append(proc(rng, spec, f'G0d{j}', u))
+        elif k == 'H':
+            gd.append({'k': 'H', 'n': f'G0d{j}', 'c': rng.choice(GRID), 'up': u})
+        else:
+            gd.append({'k': 'B', 'n': f'G0d{j}', 'c': rng.choice(GRID), 'cap': rng.choice([1, 2, 3]), 'up': u})
+    spec['groups'].append({'n': 'G0', 'devs': gd})
+    paths = ['GPa']
+    devs.append({'k': 'GP', 'n': 'GPa', 'g': 'G0', 'up': up})
+    if rng.random() < 0.35:
+        devs.append({'k': 'S', 'n': 'S1', 'c': rng.choice([0.5, 1, 2]), 'budget': rng.choice([INF, 5]), 'batch': None,
+                     'val': 0})
+        devs.append({'k': 'GP', 'n': 'GPb', 'g': 'G0', 'up': ['S1']})
+        paths.append('GPb')
+    after = []
+    for i, gp in enumerate(paths):
+        if rng.random() < 0.3:
+            devs.append({'k': 'B', 'n': f'B{i}', 'c': rng.choice([0, 1]), 'cap': rng.choice([1, 2]), 'up': [gp]})
+            after.append(f'B{i}')
+        else:
+            after.append(gp)
+    if len(after) == 2 and rng.random() < 0.5:
+        devs.append({'k': 'K', 'n': 'K0', 'c': rng.choice([2, 3, 4.5]), 'up': [after[0]]})
+        devs.append({'k': 'K', 'n': 'K1', 'c': rng.choice([1, 2, 4.5]), 'up': [after[1]]})
+    else:
+        devs.append({'k': 'K', 'n': 'K0', 'c': rng.choice([2, 3, 4.5, 6]), 'up': after})
+    acts = []
+    for gp in paths:
+        if rng.random() < 0.8:
+            t = rng.choice([2, 3, 4.5, 6, 7])
+            acts.append([t, rng.choice(PRIOS), 'block', gp, True])
+            if rng.random() < 0.6:
+                acts.append([t + rng.choice([4, 7.5, 11, 20]), rng.choice(PRIOS), 'block', gp, False])
+    procs = names_of(spec, 'P')
+    acts += actions(rng, spec, rng.choice([0, 0, 1, 3]), procs, procs + paths, ['S0'])
+    spec['actions'] = acts
+    spec = finish(rng, spec, 'groups', T=rng.choice([20, 30, 40]))
+    spec.pop('between', None)
+    return spec
+
+
 def gen_groups(rng):
+    if rng.random() < 0.2:
+        return gen_group_drain(rng)
     spec = gen_general(rng, with_group=False)
     spec['actions'] = [a for a in spec['actions'] if a[2] != 'rewire_add']
 
